@@ -80,6 +80,8 @@ def dispatch_call(fr: Frame, e: ast.Call, env, guard: G, stmt):
             return _known(fr, name, e, args, kwargs, env, guard, stmt)
         # any other dependency call: opaque and pure
         qual = f"{getattr(r.obj, '__module__', '?')}.{nm}"
+        if "dep:" + qual in ev.scalar_deps:
+            return _opaque_call(fr, "dep:" + qual, args, kwargs, array=False)
         return _opaque_call(fr, "dep:" + qual, args, kwargs)
     # ---- package functions --------------------------------------------------
     if r.kind == "func":
